@@ -25,13 +25,26 @@ const DIRECTED: &[&[u8]] = &[
 ];
 
 /// Variations of the line ending / free text that a sloppy sender could produce.
-fn sloppy_v1(rng: &mut Rng) -> Vec<u8> {
+pub fn sloppy_v1(rng: &mut Rng) -> Vec<u8> {
     let w = wire::gen_v1(rng, true);
     let n = w.bytes.len();
     let mut line = w.bytes[..n - 2].to_vec();
+    if rng.chance(1, 5) {
+        // a doubled separator somewhere in the line
+        let spaces: Vec<usize> = line
+            .iter()
+            .enumerate()
+            .filter(|(_, b)| **b == b' ')
+            .map(|(i, _)| i)
+            .collect();
+        if !spaces.is_empty() {
+            let at = *rng.pick(&spaces);
+            line.insert(at, b' ');
+        }
+    }
     let endings: &[&[u8]] = &[
         b" \n", b"\n", b" \r\n", b"\n\r\n", b" \n\r\n", b" \n x\r\n", b"\r", b" \n\r", b" ",
-        b" \n \n", b"\r\r\n",
+        b" \n \n", b"\r\r\n", b"", b" GET / HTTP/1.1", b" x", b"  ",
     ];
     let e: &[u8] = *rng.pick(endings);
     line.extend_from_slice(e);
@@ -203,14 +216,22 @@ impl Check for C04 {
                         } else {
                             usize::MAX
                         };
-                        if declared == usize::MAX || hlen != 16 + declared {
+                        let len_accessor = match &v {
+                            Verdict::V2(Ok(h)) => h.len(),
+                            Verdict::Auto(ppp::HeaderResult::V2(Ok(h))) => h.len(),
+                            _ => hlen,
+                        };
+                        if declared == usize::MAX || hlen != 16 + declared || len_accessor != hlen {
                             local.push(viol(
                                 "C04",
                                 "v2_consumed_length_not_16_plus_declared",
                                 entry,
                                 b,
                                 v.kind(),
-                                format!("header length {} but declared length {}", hlen, declared),
+                                format!(
+                                    "header bytes {}, len() {}, declared length {}",
+                                    hlen, len_accessor, declared
+                                ),
                             ));
                             return false;
                         }
